@@ -96,7 +96,12 @@ impl Property for C07 {
         let mut source = ScriptSource::new(sink.data.clone(), routs(&rchunks), ROut::Deliver(usize::MAX), budget);
         st.eval(1);
         crate::io_glue::IO_CAPACITY.with(|c| c.set(capacity));
+        // a third of the cases: some guards are retain()ed first ("do not remove the message"), the message
+        // must then be received again
+        let retain_mask = if routes[5] % 3 == 0 { routes[4] as u64 } else { 0 };
+        crate::io_glue::RETAIN_MASK.with(|m| m.set(retain_mask));
         let recvs = lib(|| sh.io_recv_blocking(&mut source, max_msg_len, msgs.values.len() + 3, 0));
+        crate::io_glue::RETAIN_MASK.with(|m| m.set(0));
         crate::io_glue::IO_CAPACITY.with(|c| c.set(None));
         let recvs = match recvs {
             Ok(r) => r,
@@ -134,6 +139,9 @@ impl Property for C07 {
         }
         if capacity.is_some() {
             st.label("explicit buffer capacity (IoBuffer::new)");
+        }
+        if retain_mask & ((1u64 << msgs.values.len().min(63)) - 1) != 0 {
+            st.label("a guard was retain()ed and the message received again");
         }
         if msgs.post_ops.iter().any(|o| !o.is_empty()) {
             st.label("message modified through the send guard before send");
